@@ -1852,6 +1852,11 @@ TARGETS2 = {
         ("harness/vw_split.c", "vw_splitPut", "splitPut"),
         ("harness/vw_split.c", "vw_splitGet", "splitGet"),
         ("harness/vw_split.c", "vw_splitGetLen", "splitGetLen"),
+        ("harness/vw_split.c", "vw_split16Length", "split16Length"),
+        ("harness/vw_split.c", "vw_split16Put", "split16Put"),
+        ("harness/vw_split.c", "vw_split16Get", "split16Get"),
+        ("harness/vw_split.c", "vw_split16GetLen", "split16GetLen"),
+        ("harness/vw_split.c", "vw_split16GetLenQuick", "split16GetLenQuick"),
     ],
     "CDelta": [
         ("import", "CExternal", "varintExternal.c:varintExternalLoadFromEncodingLittleEndian_:extLoadLE,"
